@@ -1,7 +1,10 @@
 use super::job_queue::*;
 use super::queue_state::*;
 
+#[cfg(not(desync_verif))]
 use std::thread;
+#[cfg(desync_verif)]
+use vsched::thread;
 
 ///
 /// Struct that holds the currently active queue and marks it as panicked if dropped during a panic
